@@ -33,6 +33,9 @@ theorem source_written_after_setup :
 /-- the per-render copies that keep aliased data out of reach of other renders (see C10) -/
 theorem source_copies_before_evaluation : Generated.evaluatesDeepClone = true ∧ Generated.callerDataCopied = true := by decide
 
+/-- … and a deep clone shares no attribute storage with the cached node: an `append` to a clone's attributes cannot reach the cache -/
+theorem source_clone_owns_its_attributes : Generated.deepCloneCopiesAttrs = true := by decide
+
 /-! (a) the lock invariant, for every trace -/
 
 /-- a write holder is the only holder -/
